@@ -29,7 +29,9 @@ func (e *Env) Enabled(op Op) bool {
 	}
 	inTx := e.T != nil
 	switch op.K {
-	case OBegin, OReopen, OReopenWith:
+	case OReopenWith:
+		return !inTx && op.A != e.Cfg.MaxPages
+	case OBegin, OReopen:
 		return !inTx
 	case OCommit, ORollback, OCloseTx:
 		return inTx
@@ -361,6 +363,9 @@ func (e *Env) Apply(op Op) {
 			return
 		}
 		e.Tx = tx
+		if op.B == 1 {
+			e.OverflowUsed = true
+		}
 		e.T = &TxModel{Root: e.M.Root, Writes: map[uint64]Val{}, New: map[uint64]bool{}, Freed: map[uint64]bool{},
 			Flushed: map[uint64]bool{}, Overflow: op.B == 1, WALLimit: op.A}
 		if uint64(tx.Root()) != e.M.Root {
@@ -502,9 +507,21 @@ func (e *Env) Apply(op Op) {
 		o.Flags |= txfile.FlagUpdMaxSize
 		o.MaxSize = uint64(op.A * e.Cfg.PageSize)
 		o.Prealloc = op.B == 1
+		old := e.Cfg.MaxPages
+		prevExtent := e.Disk.Len()
 		if e.Reopen(o) {
 			e.Cfg.MaxPages = op.A
 			e.Opts.MaxSize = o.MaxSize
+			shrink := op.A != 0 && (old == 0 || op.A < old)
+			if shrink {
+				e.ExtentCap = prevExtent
+				if lim := int64(op.A * e.Cfg.PageSize); lim > e.ExtentCap {
+					e.ExtentCap = lim
+				}
+				e.Disk.MaxExtent = e.Disk.Len()
+			} else {
+				e.ExtentCap = 0
+			}
 		}
 	}
 }
@@ -633,6 +650,9 @@ func (e *Env) VerifyAgainst(m State, when, class string) bool {
 		}
 		for _, id := range m.IDs() {
 			v := m.Pages[id]
+			if v[0] == Undef && v[1] == Undef {
+				continue // allocated but never written: no contents to compare, possibly beyond the end of the file
+			}
 			p, err := tx.Page(txfile.PageID(id))
 			if err != nil {
 				e.violate(class+"/page-access", "%s: live page %d not accessible: %v", when, id, err)
